@@ -107,7 +107,7 @@ def gen_string(r):
     w = ''.join(r.choice('0123456789') for _ in range(r.choice([1, 1, 2, 5, 9, 10, 10])))
     f = ''.join(r.choice('0123456789') for _ in range(r.choice([1, 1, 2, 7, 8, 8])))
     good = w + '.' + f
-    k = r.randrange(22)
+    k = r.randrange(23)
     ws = r.choice([' ', '\n', '\t', '\r', '\x0b', '\x0c', '\x00', ' ', ' ', '\x85', '\x1c', '\r\n'])
     if k == 0:
         return 'valid', good
@@ -152,6 +152,23 @@ def gen_string(r):
         return 'inf-nan', r.choice(['inf', 'nan', 'Infinity', '-inf', '1.0f'])
     if k == 20:
         return 'double-trailing-newline', good + '\n\n'
+    if k == 21 or (k == 18 and r.random() < 0.5):
+        # characters that are NOT decimal digits (category No / Po / So) but that a compatibility normalisation folds onto a digit or
+        # a full stop: superscripts, subscripts, circled and parenthesised numbers, digit-full-stop, dot leaders, full-width stop
+        # (seeded break C20-I ran the input through NFKC).  Unlike the Nd digits of class `unicode-digit` nobody can call these digits
+        digitish = '\u00b2\u00b3\u00b9\u2070\u2074\u2079\u2080\u2085\u2089\u2460\u2468\u2474\u24ea\u2776\u3248'
+        dotish = '\uff0e\u2024\ufe52'
+        how = r.randrange(5)
+        if how == 0:
+            return 'compatibility-character', good + r.choice(digitish) if len(f) < 8 else good[:-1] + r.choice(digitish)
+        if how == 1:
+            p = r.randrange(len(w))
+            return 'compatibility-character', w[:p] + r.choice(digitish) + w[p + 1:] + '.' + f
+        if how == 2:
+            return 'compatibility-character', w + r.choice(dotish) + f
+        if how == 3:
+            return 'compatibility-character', w[:-1] + r.choice('\u2488\u2489\u2490') + f      # DIGIT ONE FULL STOP etc.: "1." in one character
+        return 'compatibility-character', r.choice(digitish) + '.' + f
     return 'valid', good
 
 
